@@ -14,7 +14,7 @@ ASSUMPTIONS = [
     'run inconclusive)',
     'the inline text is embedded as ATX heading content ("# " + text), whose stripping of surrounding spaces is mirrored',
     'characters with another inline meaning (` < & \\ ~) and code points whose whitespace class differs between spec and '
-    'str.strip are outside the domain; brackets are covered by a second family: strings over the tokens {a, space, *, **, _, [, ![, ], ](u)} '
+    'str.strip are outside the domain; brackets are covered by a second family: strings over the tokens {a, space, *, **, _, [, ![, !, ], ](u)} '
     'are compared with rtmon.emphasis_link_model, the spec\'s "look for link or image" procedure with the one inline link tail "(u)" '
     '(no reference definitions: other bracket forms stay literal)',
 ]
@@ -54,7 +54,7 @@ def check_text(ctx, t, source):
         ctx.violation('structure-differs', signature(t), case, expected=exp, observed=got)
 
 
-LINK_TOKENS = ['a', ' ', '*', '_', '[', ']', '](u)', '![', '**']
+LINK_TOKENS = ['a', ' ', '*', '_', '[', ']', '](u)', '![', '**', '!']
 
 
 def check_link_text(ctx, t, source):
@@ -225,7 +225,7 @@ def finalize(m, tier):
                 'inert ASCII punctuation, Unicode punctuation and Zs spaces. Each is rendered as heading content by the real parser '
                 'and compared with the reference delimiter algorithm. non-trivial = the reference algorithm forms at least one '
                 '<em>/<strong> (enumerated strings are distinct by construction; random ones are de-duplicated by hash). Second family: every '
-                'string of up to %d tokens from {a, space, *, **, _, [, ![, ], ](u)} and random ones of 6-16 tokens, compared with the '
+                'string of up to %d tokens from {a, space, *, **, _, [, ![, !, ], ](u)} and random ones of 6-16 tokens, compared with the '
                 'link-aware model (non-trivial there = at least one link or image is formed)'
                 % (sz['n5'], space5, sz['n2'], space2, sz['nlink']),
         'exhaustive': True,
